@@ -10,6 +10,16 @@ REPO = "/repo"
 
 
 FIRST_MISSED = {
+    "C09e": "C09-D7 validate_claimed(..)? dominates every write of whale_lair bond/unbond, applied to the sender, rejecting a non-empty claimable list",
+    "C09f": "C09-D8 the v0.9.1 migration refunds exactly the field it empties (`available`)",
+    "C10e": "C10-Q7 each optional collector setting is assigned with only its own request field present (no nesting under another field's Some arm)",
+    "C10f": "C10-Q5 the Vaults / Pairs listing queries carry the selected FactoryType's own start_after and limit",
+    "C12e": "C12-L8 positions recorded only for LP actually received (C11-K2 caught it at first sight; LP and reward funds share one balance)",
+    "C12f": "C12-L9 the v1.0.6 migration copies every pre-existing Flow field from the same-named old field",
+    "C14e": "C14-S3 curve inputs: StableSwap::new(.., env.block.height, ..) on every path (C04-A6, filed under C14 too)",
+    "C15e": "C15-M1 every entry path (message and cw20 hook) forwards the request's own belief_price / max_spread to swap",
+    "C15f": "C15-M3 the deposits handed to assert_slippage_tolerance are in pool order (element i found for pools[i])",
+    "C16f": "C16-guard every successful return of a privileged variant's handler is guard-dominated (not only its effects)",
     "C06f": "C06-X6 router-keeps-nothing (ordering-domain walk over the profit: the transfer is skipped only for a profit of exactly 0)",
     "C08e": "C08-B2 weight helpers return and save the record they were given (nothing loaded from storage)",
     "C08f": "C08-B5 the Unbonding query's cursor is an exclusive lower bound",
